@@ -20,6 +20,7 @@ func runC12Gaps2(c *eng.Ctx) {
 	c12gPolicyPathsAnchored(c)
 	c12gGroupPolicyHierarchy(c)
 	c12gRouterTreeKeys(c)
+	c12gWalkCallbackComparisons(c)
 	c12gBarrierHelper(c)
 	c12gSealedGate(c)
 	c12gCubbyholeID(c)
@@ -1048,4 +1049,170 @@ func c12gGateEdges(f *ssa.Function, fr *nfFrame, isTest func(nc nfCall, fr *nfFr
 		out = append(out, eng.CallOKEdges(cl)...)
 	}
 	return out
+}
+
+// ---------- C12.3 inside the callbacks of walks over the mount tree, every comparison of a tree
+// key (the callback's first parameter or a part cut from it — keys are namespace-qualified
+// absolute paths) with a path is made with a namespace-qualified path: the other operand leads
+// with <namespace of the context>.Path at the time the walk runs (a captured variable is read as
+// of the walk call)
+func c12gWalkCallbackComparisons(c *eng.Ctx) {
+	root := c.P.Field("routing.Router.root")
+	if root == nil {
+		c.Clause("R5", "C12.3")
+		c.Unresolved("routing.Router.root")
+		return
+	}
+	c.Clause("R5", "C12.3")
+	site := "tree key compared with a namespace-qualified path"
+	n := 0
+	for _, f := range c.P.Funcs {
+		if !eng.InPkg(f, "routing") {
+			continue
+		}
+		for _, wk := range eng.Calls(f, `go-radix\.Tree\)\.(WalkPrefix|WalkPath|Walk)$`) {
+			a := wk.Common().Args
+			ld, ok := a[0].(*ssa.UnOp)
+			if !ok || ld.Op != token.MUL {
+				continue
+			}
+			if fa, ok := ld.X.(*ssa.FieldAddr); !ok || eng.FieldVar(fa) != root {
+				continue
+			}
+			g, _ := nfFuncValue(a[len(a)-1])
+			if g == nil || len(g.Params) == 0 || len(g.Blocks) == 0 {
+				continue
+			}
+			key := g.Params[0]
+			// v is the tree key or a part cut from it
+			var fromKey func(v ssa.Value, d int) bool
+			fromKey = func(v ssa.Value, d int) bool {
+				if d > 5 || v == nil {
+					return false
+				}
+				switch x := v.(type) {
+				case *ssa.Parameter:
+					return x == key
+				case *ssa.Slice:
+					return fromKey(x.X, d+1)
+				case *ssa.Extract:
+					if cl, ok := x.Tuple.(*ssa.Call); ok && x.Index == 0 && strings.HasPrefix(eng.CalleeName(&cl.Call), "strings.Cut") {
+						return fromKey(cl.Call.Args[0], d+1)
+					}
+				case *ssa.Call:
+					if strings.HasPrefix(eng.CalleeName(&x.Call), "strings.Trim") && len(x.Call.Args) > 0 {
+						return fromKey(x.Call.Args[0], d+1)
+					}
+				case *ssa.Phi:
+					for _, e := range x.Edges {
+						if !fromKey(e, d+1) {
+							return false
+						}
+					}
+					return len(x.Edges) > 0
+				}
+				return false
+			}
+			// the captured variable a *freevar load reads, as of the walk call
+			cellVals := func(v ssa.Value) ([]ssa.Value, bool) {
+				l, ok := v.(*ssa.UnOp)
+				if !ok || l.Op != token.MUL {
+					return nil, false
+				}
+				fv, ok := l.X.(*ssa.FreeVar)
+				if !ok {
+					return nil, false
+				}
+				cell := nfCellOf(fv)
+				if cell == nil || cell.Parent() != f {
+					return nil, false
+				}
+				vals, _ := eng.ReachingStores(cell, wk)
+				var out []ssa.Value
+				for _, x := range vals {
+					if x == nil {
+						return nil, false
+					}
+					out = append(out, x)
+				}
+				return out, len(out) > 0
+			}
+			var qualified func(v ssa.Value, d int) (bool, string)
+			qualified = func(v ssa.Value, d int) (bool, string) {
+				leaves := c12gLeading(v)
+				if len(leaves) == 0 || d > 4 {
+					return false, eng.Expr(v)
+				}
+				for _, l := range leaves {
+					if c12IsCtxNamespacePath(c, l) {
+						continue
+					}
+					if vals, ok := cellVals(l); ok {
+						for _, x := range vals {
+							if ok, why := qualified(x, d+1); !ok {
+								return false, why
+							}
+						}
+						continue
+					}
+					// <captured namespace>.Path
+					if pl, base := c14LoadOfField(l, "Path"); pl != nil && structTypeName(base.Type()) == "namespace.Namespace" {
+						if vals, ok := cellVals(base); ok {
+							all := true
+							for _, x := range vals {
+								if !c12gIsCtxNamespace(x) {
+									all = false
+								}
+							}
+							if all {
+								continue
+							}
+						}
+					}
+					return false, eng.Expr(l)
+				}
+				return true, ""
+			}
+			check := func(at ssa.Instruction, x, y ssa.Value) {
+				var other ssa.Value
+				switch {
+				case fromKey(x, 0) && !fromKey(y, 0):
+					other = y
+				case fromKey(y, 0) && !fromKey(x, 0):
+					other = x
+				default:
+					return
+				}
+				if _, isConst := other.(*ssa.Const); isConst {
+					return // fixed suffix/sentinel tests of the key itself
+				}
+				n++
+				if ok, why := qualified(other, 0); ok {
+					c.OK(g, site, at.Pos(), eng.ExprDeep(other))
+				} else {
+					c.Violation(g, site, at.Pos(), "a key of the mount tree (namespace-qualified) is compared with "+eng.ExprDeep(other)+", which does not lead with the Path of the context's namespace (leading operand "+why+"): inside a namespace the comparison is made between an absolute and a relative path and never / wrongly matches", nil)
+				}
+			}
+			for _, b := range g.Blocks {
+				for _, in := range b.Instrs {
+					switch x := in.(type) {
+					case *ssa.Call:
+						switch eng.CalleeName(&x.Call) {
+						case "strings.HasPrefix", "strings.HasSuffix", "strings.CutPrefix", "strings.Contains", "strings.EqualFold":
+							if len(x.Call.Args) == 2 {
+								check(x, x.Call.Args[0], x.Call.Args[1])
+							}
+						}
+					case *ssa.BinOp:
+						if x.Op == token.EQL || x.Op == token.NEQ {
+							if bt, ok := x.X.Type().Underlying().(*types.Basic); ok && bt.Info()&types.IsString != 0 {
+								check(x, x.X, x.Y)
+							}
+						}
+					}
+				}
+			}
+		}
+	}
+	c.Floor(nil, "comparisons of mount-tree keys with paths inside walk callbacks", n, 3)
 }
